@@ -252,3 +252,10 @@ package protocol
 //@   requires #recv: d != nil
 //@   ensures #nonnil: result != nil && fresh(result)
 //@   modifies nothing
+
+//@ func (p *PublishInternal) Command(ctx context.Context) *redis.IntCmd
+//@   props C14
+//@   trusted
+//@   requires #recv: p != nil
+//@   ensures #nonnil: result != nil && fresh(result)
+//@   modifies nothing
